@@ -50,7 +50,8 @@ def _mparams(shape, vp, pol=0):
         else:
             k = vp[vi]
             vi += 1
-            out.append({"V": "virtual_<K%d&>" % k, "W": "virtual_<K%d*>" % k, "P": _vptr(k, pol)}[ch])
+            out.append({"V": "virtual_<K%d&>" % k, "W": "virtual_<K%d*>" % k, "P": _vptr(k, pol), "Q": "VSP%d" % k,
+                        "S": "virtual_<SP%d>" % k, "C": "virtual_<const SP%d&>" % k}[ch])
     return ", ".join(out)
 
 
@@ -62,7 +63,8 @@ def _dparams(shape, dvp, pol=0, skip_first=False):
         else:
             k = dvp[vi]
             vi += 1
-            out.append({"V": "K%d& a%d" % (k, i), "W": "K%d* a%d" % (k, i), "P": "%s a%d" % (_vptr(k, pol), i)}[ch])
+            out.append({"V": "K%d& a%d" % (k, i), "W": "K%d* a%d" % (k, i), "P": "%s a%d" % (_vptr(k, pol), i), "Q": "VSP%d a%d" % (k, i),
+                        "S": "SP%d a%d" % (k, i), "C": "const SP%d& a%d" % (k, i)}[ch])
     return ", ".join(out[1:] if skip_first else out)
 
 
@@ -86,7 +88,10 @@ def _args(shape, vp, t, pol=0, salt=0):
         route = (salt + i + x) % 4
         vptr = {0: "%s(%s)" % (_vptr(v, pol), ref), 1: "%s(%s(o%d))" % (_vptr(v, pol), _vptr(x, pol), x),
                 2: "%s(%s::final(o%d))" % (_vptr(v, pol), _vptr(x, pol), x), 3: "%s(o%d)" % (_vptr(v, pol), x)}[route]
-        out.append({"V": ref, "W": "&" + ref, "P": vptr}[ch])
+        # shared kinds: the objects s<class> are shared_ptr<K<class>> to the most derived object
+        shp = "SP%d(s%d)" % (v, x)
+        vsp = {0: "VSP%d(%s)" % (v, shp), 1: "VSP%d(VSP%d(s%d))" % (v, x, x), 2: "VSP%d(s%d)" % (v, x), 3: "VSP%d(VSP%d::final(s%d))" % (v, x, x)}[route]
+        out.append({"V": ref, "W": "&" + ref, "P": vptr, "Q": vsp, "S": shp, "C": shp}[ch])
     return ", ".join(out)
 
 
@@ -124,7 +129,7 @@ def scenario(idx, classes, edges, statements, methods, defs, abstract=(), shapes
             sdef[(m, d)] = "plain"
         # (a member function cannot take a virtual_ptr by value: the thunk of add_member_function turns every parameter
         # into a forwarding reference, and virtual_ptr<..>&& is not a parameter form the library knows -- see DESIGN.md 12)
-        if k == "member" and (shape_of(m, mvp0[m])[0] != "W" or "P" in shape_of(m, mvp0[m]) or smeth.get(m, "free") == "static"):
+        if k == "member" and (shape_of(m, mvp0[m])[0] != "W" or not set(shape_of(m, mvp0[m])[1:]) <= set("VN") or smeth.get(m, "free") == "static"):
             sdef[(m, d)] = "plain"
     members = {}
     for m, d, vp in defs:
@@ -153,6 +158,7 @@ def scenario(idx, classes, edges, statements, methods, defs, abstract=(), shapes
     o = ["namespace %s {" % ns]
     o.append(" ".join("struct K%d;" % c for c in classes))
     o.append(" ".join("using VP%d = virtual_ptr<K%d%s>;" % (c, c, polarg) for c in classes))
+    o.append(" ".join("using SP%d = std::shared_ptr<K%d>; using VSP%d = virtual_shared_ptr<K%d%s>;" % (c, c, c, c, polarg) for c in classes))
     for c in classes:   # classes are numbered so that bases come first
         bases = ", ".join("%spublic K%d" % (virt, b) for b in direct[c])
         # abstract classes are really abstract (is_abstract comes from std::is_abstract_v); every class says what it
@@ -163,12 +169,15 @@ def scenario(idx, classes, edges, statements, methods, defs, abstract=(), shapes
         if pol in CUSTOM_IDS:
             ids = "inline static std::size_t kid = %s; virtual std::size_t vid() const { return kid; }" % (kid_of(pol, c) if pol == 3 else "0")
         o.append("struct K%d%s { int tag%d = %d; virtual ~K%d() {} %s %s %s };" % (c, (" : " + bases) if bases else "", c, c, c, pure, mf, ids))
+    # registration statements: before the methods and definitions, or (late_reg) after them -- the order of appearance in
+    # the translation unit is the order in which the registration objects are constructed
+    regs = []
     for i, st in enumerate(statements):
         k = sreg.get(i, "classes")
         if k == "classes":
-            o.append("register_classes(%s%s);" % (", ".join("K%d" % c for c in st), polarg))
+            regs.append("register_classes(%s%s);" % (", ".join("K%d" % c for c in st), polarg))
         elif k == "use":
-            o.append("yorel::yomm2::use_classes<%s%s> YOMM2_GENSYM;" % (", ".join("K%d" % c for c in st), polarg))
+            regs.append("yorel::yomm2::use_classes<%s%s> YOMM2_GENSYM;" % (", ".join("K%d" % c for c in st), polarg))
         elif k == "nested":
             # the statement cut into consecutive types<> lists (the caller has put it in the order it wants)
             cuts = style.get("cuts", {}).get(i) or [len(st) // 2]
@@ -177,11 +186,13 @@ def scenario(idx, classes, edges, statements, methods, defs, abstract=(), shapes
                 if cpos > prev:
                     parts.append(st[prev:cpos])
                     prev = cpos
-            o.append("register_classes(%s%s);" % (", ".join("yorel::yomm2::detail::types<%s>" % ", ".join("K%d" % c for c in part) for part in parts), polarg))
+            regs.append("register_classes(%s%s);" % (", ".join("yorel::yomm2::detail::types<%s>" % ", ".join("K%d" % c for c in part) for part in parts), polarg))
         else:
             for c in st:
-                o.append("yorel::yomm2::class_declaration<yorel::yomm2::detail::types<%s%s>> YOMM2_GENSYM;" %
+                regs.append("yorel::yomm2::class_declaration<yorel::yomm2::detail::types<%s%s>> YOMM2_GENSYM;" %
                          (", ".join("K%d" % x for x in [c] + [b for b in st if b in anc[c] and b != c]), polarg))
+    if not style.get("late_reg"):
+        o.extend(regs)
     mvp = {m: vp for m, vp in methods}
     for m, vp in methods:
         k = smeth.get(m, "free")
@@ -229,19 +240,24 @@ def scenario(idx, classes, edges, statements, methods, defs, abstract=(), shapes
         if scall.get(m) == "class" and smeth.get(m, "free") == "free":
             return "method_class(int, m%d, (%s)%s)::fn" % (m, _mparams(shape_of(m, vp), vp, pol), polarg)
         return mname(m)
+    if style.get("late_reg"):
+        o.extend(regs)
     o.append("void run() {")
     if pol == 4:     # deferred ids: known only now
         for c in classes:
             o.append("    K%d::kid = %s;" % (c, kid_of(pol, c)))
     r = 0
+    cls_events = []
     for i, st in enumerate(statements):
         for c in st:
             r += 1
             listed = [b for b in st if b in anc[c]]     # what inheritance_map keeps: the classes of the statement that are bases of c (itself included)
             if sreg.get(i, "classes") == "decl":
                 listed = [b for b in listed if b != c]
-            o.append('    std::printf("{\\"e\\":\\"class\\",\\"p\\":%d,\\"r\\":%d,\\"c\\":%d,\\"bases\\":%s,\\"abs\\":%s}\\n");' %
+            cls_events.append('    std::printf("{\\"e\\":\\"class\\",\\"p\\":%d,\\"r\\":%d,\\"c\\":%d,\\"bases\\":%s,\\"abs\\":%s}\\n");' %
                      (pol, idx * 1000 + r, c, str(listed).replace(" ", ""), "true" if c in abstract else "false"))
+    if not style.get("late_reg"):
+        o.extend(cls_events)
     for m, vp in methods:
         # so: is the method compiled with generated static offsets (1 / 0; -1: not asked, the method class of a static method
         # has no spelling through method_class)
@@ -252,11 +268,13 @@ def scenario(idx, classes, edges, statements, methods, defs, abstract=(), shapes
     for m, d, vp in defs:
         o.append('    std::printf("{\\"e\\":\\"def\\",\\"p\\":%d,\\"m\\":%d,\\"d\\":%d,\\"vp\\":%s}\\n");' %
                  (pol, idx * 100 + m, d, str(list(vp)).replace(" ", "")))
+    if style.get("late_reg"):
+        o.extend(cls_events)
     o.append("}")
     o.append("void tables() {")
     concrete = [c for c in classes if c not in abstract]
     for c in concrete:
-        o.append("    K%d o%d;" % (c, c))
+        o.append("    auto s%d = std::make_shared<K%d>(); K%d& o%d = *s%d;" % (c, c, c, c, c))
     if pol in CUSTOM_IDS:
         o.append("    const std::size_t tis[] = {%s};" % ", ".join("K%d::kid" % c for c in classes))
     else:
@@ -291,6 +309,7 @@ def scenario(idx, classes, edges, statements, methods, defs, abstract=(), shapes
 COMMON = r'''
 #include <yorel/yomm2/keywords.hpp>
 #include <string>
+#include <memory>
 #include <csignal>
 #include <unistd.h>
 static bool g_via_next = false;
